@@ -24,14 +24,14 @@ ProphyFaults == {"none", "delete_token", "swap_tokens", "illegal_char", "undefin
                  "random_text", "constant_as_type", "greedy_not_last", "token_fuzz", "self_typedef_sizer",
                  "negative_shift", "huge_shift", "huge_array", "deep_parentheses", "nul_byte", "byte_order_mark",
                  "typedef_of_undefined", "union_self_arm", "enum_self_reference", "non_utf8", "non_utf8_include",
-                 "include_directory", "deep_typedef_chain", "absurd_shift"}
+                 "include_directory", "deep_typedef_chain", "absurd_shift", "huge_literal"}
 IsarFaults == {"none", "malformed_xml", "type_cycle", "self_reference", "undefined_type", "duplicate_enum_value",
                "missing_include", "bad_dimension", "member_without_name", "member_without_type", "empty_root",
                "random_text", "constant_cycle", "token_fuzz", "self_typedef_member", "typedef_cycle_member",
                "union_self_arm", "negative_shift_constant", "huge_dimension", "dangling_expression", "typedef_without_type",
                "enum_without_members", "non_numeric_enum_value", "non_numeric_discriminator", "non_utf8",
                "division_by_zero", "size_names_type", "absurd_shift", "empty_member_name",
-               "malformed_operator_call"}
+               "malformed_operator_call", "huge_literal"}
 PatchFaults == {"none", "one_word_line", "unknown_action", "wrong_param_count", "member_not_found", "non_integer_index",
                 "absent_message", "empty_patch", "non_utf8_patch", "bad_size_expression", "valid_rules"}
 OptionFaults == {"none", "no_input", "no_output", "missing_input_file", "isar_and_sack", "missing_include_dir",
